@@ -83,8 +83,8 @@ Ltac canon_sqrt a b c d w x y z :=
       lazymatch E with
       | 2 - 2 * _ => fail
       | 2 + 2 * _ => fail
-      | _ => first [ replace E with (2 - 2 * dot4 a b c d w x y z) by (unfold dot4; uring)
-                   | replace E with (2 + 2 * dot4 a b c d w x y z) by (unfold dot4; uring) ]
+      | _ => first [ replace E with (2 - 2 * dot4 a b c d w x y z) by (unfold dot4; hring)
+                   | replace E with (2 + 2 * dot4 a b c d w x y z) by (unfold dot4; hring) ]
       end
   end.
 Ltac canon_dot a b c d w x y z :=
